@@ -292,7 +292,7 @@ def run_check(prop, tier, seed, fams, technique_note=""):
         cov["states"] += res["states"]
         cov["transitions"] += res["transitions"]
         cov["traces_validated_against_impl"] += res["traces"]
-        cov["samples"] += res["samples"][:2]
+        cov["samples"] += res.get("samples_by_prop", {}).get(prop, res["samples"])[:2]
         cov["families"][fam.NAME] = dict(res.get("detail", {}), campaign_wall_s=res.get("wall_s"),
                                          records_for_property=len(mine),
                                          relevant_cases=res.get("relevant", {}).get(prop))
